@@ -112,6 +112,49 @@ CLAIMS["C04"] = ("other", "sibling agreement of flattened orchestration sequence
                  "mjData is cleared before the same sensor stage in all three full pipelines. Numerical equality and warm-start "
                  "idempotence are not decided.", "Trusts clang's AST; callbacks/plugins are external.", "DESIGN.md 4/C04")
 
+CLAIMS["C03"] = ("other", "protocol-shape analysis of ThreadPoolContext on the C++ clang AST: roles discovered from the AST, atomic RMW claim, "
+                 "release/acquire ordering around plain fields, done-counter on all worker paths, dominance of Dispatch's exit by the wait, "
+                 "shutdown and pool replacement",
+                 "Decides necessary structural conditions of exactly-once dispatch: ids only from an atomic RMW, the task function called "
+                 "only with a claimed, bound-tested id, plain job fields written before the releasing publish and read after the acquiring "
+                 "wait, the done counter incremented exactly once per round with release, Dispatch cannot return before the acquire poll "
+                 "of the done counter, destructor stores stop, notifies all and joins every thread, mju_threadpool deletes before replacing. "
+                 "Absence of lost wake-ups / deadlock over all interleavings is model checking and is NOT decided.",
+                 "Trusts clang's AST; std::atomic/condition semantics as specified by the C++ memory model.", "DESIGN.md 4/C03")
+CLAIMS["C05"] = ("other", "exactly-once path rules, exact rational check of the constant-folded RK4 tableau, ownership of d->act writes over "
+                 "the call graph, dispatch exhaustiveness",
+                 "Decides: d->time advances by exactly one `+= timestep` per step on every path and only in mj_advance; each integrator calls "
+                 "mj_advance exactly once; RK4 restores the entry time before advancing; the RK4 constants satisfy the eight order-4 "
+                 "conditions (classical tableau up to representation); activations change only through the clamping update or a projection "
+                 "of the stored value; mj_nextActivation clips to actrange on every non-DCMOTOR path; joint-type and integrator dispatches "
+                 "are exhaustive. The arithmetic of the update rules is not decided.", "Trusts clang's AST.", "DESIGN.md 4/C05")
+CLAIMS["C09"] = ("other", "sibling agreement between each forward integrator (constant-folded specialisation) and the matching case of the "
+                 "discrete inverse; save/restore pairing on all paths",
+                 "Decides that the matrix the forward integrator inverts and the one mj_discreteAcc multiplies by are built under the same "
+                 "disable flags, with the same derivative calls and literal arguments, the same timestep sign and (Euler) the same model "
+                 "arrays deciding implicit damping; forward results saved around the inverse pass are restored on all paths. Equality of "
+                 "forces is not decided.", "Trusts clang's AST.", "DESIGN.md 4/C09")
+CLAIMS["C38"] = ("other", "lock-region, key-mutation, paired-write and bound-dominance path rules on the C++ clang AST of mjCCache (member roles "
+                 "discovered from the AST)",
+                 "Decides on every path of every cache method: guarded members touched only under the class mutex, comparator key fields "
+                 "mutated only while the element is outside the ordered set, every lookup-map insertion/erasure/replacement paired with the "
+                 "byte-counter and ordered-set update, every growth of the counter dominated by the capacity test, comparator is the "
+                 "strict (access count, insertion order) lexicographic order and trimming evicts the minimum. Value semantics over histories "
+                 "are not decided.", "Trusts clang's AST; std::set/map semantics.", "DESIGN.md 4/C38")
+CLAIMS["C39"] = ("other", "key-provenance dataflow over all mount-table accesses, add-first/no-mutation-before-repeat path rule, delete/read result "
+                 "derivation on the C++ clang AST",
+                 "Decides: every keyed access to the mount table uses a key produced by the same normalisation (FilePath), insertion is "
+                 "non-overwriting and dominated by a negative containment test on that key, the repeated-name code is returned before any "
+                 "mutation, delete's result derives from the find/erase outcome, read-back returns the stored provider's data/size. Which "
+                 "entry prefix lookups select over a history is not decided.", "Trusts clang's AST.", "DESIGN.md 4/C39")
+CLAIMS["C40"] = ("other", "lock-region, publish-ordering, reader-bound, provenance and sibling rules on the instantiated GlobalTable<T> ASTs",
+                 "Decides for every instantiation: table storage written only while a write lock on that table's own mutex is alive, count "
+                 "published by a release store only after a successful complete copy, readers bound every access by an acquired count, "
+                 "every *Unsafe call passes a bound obtained from the same table's count, uniqueness scan covers [0,count) with the "
+                 "case-folding comparison lookups use, registering functions establish non-empty keys; one known finding (fatal error call "
+                 "while the lock is held). Linearizability over interleavings is not decided.", "Trusts clang's AST and the C++ memory "
+                 "model.", "DESIGN.md 4/C40")
+
 NOT_APPLICABLE = {
     "C06": "numerical identities of M, LTDL and RNE over real-valued runtime data; no clause is visible in code shape",
     "C07": "'J equals the derivative of position' and proper-rotation claims are numerical; joint-type exhaustiveness is decided under C05",
